@@ -123,6 +123,12 @@ pub fn run_item(tier: &str, idx: usize, only: Option<&Value>) -> MResult<ItemRes
                 json!({"engine": "handlemc", "item": idx, "target": target, "fd": fdnum, "worker": wkind}));
             Ok(res)
         }
+        // with a disturbed host /proc the preparatory resolve may fail (an error is all the property allows there): nothing to re-open
+        Err(Mach(m)) if m.contains("no such handle") && wkind.contains('+') => {
+            let mut res = ItemResult::default();
+            res.count("setup_failed_under_disturbed_proc", 1);
+            Ok(res)
+        }
         r => r,
     }
 }
@@ -179,7 +185,12 @@ fn run_item_inner(tier: &str, idx: usize, only: Option<&Value>) -> MResult<ItemR
         let hfd = open_path(&xpath)?; // the harness's own pin on the inode (O_PATH|O_NOFOLLOW)
         w.one(Op::new("occupy_low"))?;
         let r = w.one(Op::new(if target == "l" { "resolve_nofollow" } else { "resolve" }).root(ROOT_IN).path(&target).keep("h"))?;
-        if !r.ok || r.fd.as_ref().map(|f| (f.dev, f.ino)) != Some((ident.dev, ident.ino)) { return mach(format!("setup resolve of {} failed: {:?}", target, r.msg)); }
+        if let Some(p) = &r.panic {
+            // the preparatory lookup itself panicked (only possible with a disturbed host /proc): that is the library's doing
+            res.violate(format!("{}:panic:setup", wkind), format!("{} preparatory resolve of {}: panic {}", wkind, target, p), json!({"engine": "handlemc", "item": idx, "target": target, "fd": fdnum, "worker": wkind}));
+            return Ok(res);
+        }
+        if !r.ok || r.fd.as_ref().map(|f| (f.dev, f.ino)) != Some((ident.dev, ident.ino)) { return mach(format!("no such handle: setup resolve of {} failed: {:?}", target, r.msg)); }
         w.one(Op::new("handle_at_fd").handle("h").num(fdnum))?;
         // apply the history
         let mut serial = 0u32;
